@@ -44,7 +44,7 @@ def scan_forbidden():
     return bad
 
 
-EXTRA_MODULES = {"C06": ["C06Refine"], "C07": ["C07b"], "C17": ["C17b"]}     # further theorem files that belong to a property
+EXTRA_MODULES = {"C06": ["C06Refine"], "C07": ["C07b"], "C16": ["C16b"], "C17": ["C17b"]}     # further theorem files that belong to a property
 
 
 def prop_modules(prop_id):
